@@ -274,6 +274,52 @@ fn check(p: &Program) -> CaseResult {
     }
 }
 
+/// Hand-written (program, unrolling) pairs outside the generated grammar: witnesses of defects found by
+/// reviewers. The `deferred-body` ones have a forward reference inside the body (an open finding).
+fn scenario_pairs() -> Vec<(&'static str, &'static str, &'static str)> {
+    vec![
+        ("use-chain", r##"<svg><rect id="s0" wh="5"/><loop count="3" loop-var="i" start="1"><use id="s$i" href="#s{{$i - 1}}" x="10"/></loop></svg>"##,
+            r##"<svg><rect id="s0" wh="5"/><use id="s1" href="#s0" x="10"/><use id="s2" href="#s1" x="10"/><use id="s3" href="#s2" x="10"/></svg>"##),
+        ("use-chain-for", r##"<svg><rect id="s0" wh="5"/><for data="1, 2, 3" var="i"><use id="s$i" href="#s{{$i - 1}}" y="4"/></for></svg>"##,
+            r##"<svg><rect id="s0" wh="5"/><use id="s1" href="#s0" y="4"/><use id="s2" href="#s1" y="4"/><use id="s3" href="#s2" y="4"/></svg>"##),
+        ("if-test-tiny-but-nonzero", r##"<svg><rect wh="1"/><if test="1"><rect xy="^|h" wh="5"/></if></svg>"##, r##"<svg><rect wh="1"/><rect xy="^|h" wh="5"/></svg>"##),
+        ("deferred-body/if-retested", r##"<svg><var c="1"/><if test="$c"><rect xy="#z|h" wh="2"/></if><var c="0"/><rect id="z" wh="5"/></svg>"##,
+            r##"<svg><var c="1"/><rect xy="#z|h" wh="2"/><var c="0"/><rect id="z" wh="5"/></svg>"##),
+        ("deferred-body/var-update-repeated", r##"<svg><var n="0"/><loop count="2"><var n="{{$n+1}}"/><rect xy="#z|h" wh="$n"/></loop><rect id="z" wh="5"/></svg>"##,
+            r##"<svg><var n="0"/><var n="{{$n+1}}"/><rect xy="#z|h" wh="$n"/><var n="{{$n+1}}"/><rect xy="#z|h" wh="$n"/><rect id="z" wh="5"/></svg>"##),
+        ("deferred-body/while-fewer-passes", r##"<svg><var i="0"/><loop while="lt($i,2)"><rect xy="#z|h {{$i*3}}" wh="2"/><var i="{{$i+1}}"/></loop><rect id="z" wh="5"/></svg>"##,
+            r##"<svg><var i="0"/><rect xy="#z|h {{$i*3}}" wh="2"/><var i="{{$i+1}}"/><rect xy="#z|h {{$i*3}}" wh="2"/><var i="{{$i+1}}"/><rect id="z" wh="5"/></svg>"##),
+        ("deferred-body/reference-within-pass", r##"<svg><rect wh="1"/><loop count="2"><circle cxy="#b@c" r="1"/><rect id="b" xy="^|v 5" wh="6"/></loop></svg>"##,
+            r##"<svg><rect wh="1"/><circle cxy="#b@c" r="1"/><rect id="b" xy="^|v 5" wh="6"/><circle cxy="#b@c" r="1"/><rect id="b" xy="^|v 5" wh="6"/></svg>"##),
+    ]
+}
+
+fn check_pair(name: &str, a: &str, b: &str) -> CaseResult {
+    let cfg = Cfg::plain();
+    let (oa, ob) = (run_str(a, &cfg), run_str(b, &cfg));
+    let case = json!({"scenario": name, "program": a, "unrolled": b});
+    let mut viol = None;
+    let mut mk = |clause: &str, detail: String| {
+        viol = Some(Violation { clause: clause.into(), signature: format!("C16/scenario/{name}/{clause}"), case: case.clone(), detail });
+    };
+    match (&oa, &ob) {
+        (Outcome::Panic(x), _) | (_, Outcome::Panic(x)) => mk("panic", x.clone()),
+        (Outcome::Ok(x), Outcome::Ok(y)) => match (xmlref::parse(x, Mode::Document), xmlref::parse(y, Mode::Document)) {
+            (Ok(ex), Ok(ey)) => {
+                let (sx, sy) = (significant(ex), significant(ey));
+                if sx != sy {
+                    let at = sx.iter().zip(sy.iter()).position(|(p, q)| p != q).unwrap_or(sx.len().min(sy.len()));
+                    mk("differs-from-unrolling", format!("program:  {a}\nunrolled: {b}\nfirst differing event #{at}:\n  program:  {:?}\n  unrolled: {:?}", sx.get(at), sy.get(at)));
+                }
+            }
+            _ => mk("unparsable-output", "output not well-formed".into()),
+        },
+        (Outcome::Err(_), Outcome::Err(_)) => {}
+        (x, y) => mk("one-side-fails", format!("program:  {a}\n  -> {}\nunrolled: {b}\n  -> {}", clip(&x.brief(), 300), clip(&y.brief(), 300))),
+    }
+    CaseResult { case_hash: hash64(&a), nontrivial: viol.is_none() && oa.is_ok(), outcome_hash: hash64(&format!("{oa:?}")), executions: 2, violation: viol }
+}
+
 fn programs(tier: Tier) -> Vec<Program> {
     let mut forms = Vec::new();
     for n in 0..=3u32 {
@@ -334,6 +380,9 @@ pub fn run(tier: Tier) -> i32 {
     }
     rep.absorb("programs", st);
     rep.assume("loop parameters are dyadic so repeated f64 addition of step equals the twin's literal values; the twin assigns the loop variable with <var> before each copy, as the documentation describes");
+    let pairs = scenario_pairs();
+    let st = run_space(pairs.len(), |i| check_pair(pairs[i].0, pairs[i].1, pairs[i].2));
+    rep.absorb("scenarios", st);
     rep.finish()
 }
 
